@@ -7,7 +7,7 @@ from . import vallib as V
 PROPERTY = "C01"
 DRIVER = "TraitsVerif/Driver/Val.lean"
 PROPS_MODULES = ["TraitsVerif.Props.C01"]
-TRANSLATORS = ["validate_tables"]
+TRANSLATORS = ["validate_tables", "cvalidators"]
 RULE = ("routes: attribute assignment, trait_set, constructor keyword on a fresh object, "
         "trait_set(trait_change_notify=False) and trait_setq, each followed by a comparison of the instance dict "
         "(value and mapped shadow) with the model and the reference; "
@@ -18,12 +18,23 @@ RULE = ("routes: attribute assignment, trait_set, constructor keyword on a fresh
         "y and z); seeded random nestings of Either / Tuple / Union / TraitCompound with values chosen for their "
         "members; after every step the instance __dict__ is compared with the model's state and an independent "
         "Python reference (domain predicate + documented conversion per trait type, not the handler's validate) "
-        "judges what was stored; non-trivial = the step stored a value or raised; distinct = distinct history output")
+        "judges what was stored; non-trivial = the step stored a value or raised; distinct = distinct history output; "
+        "implementation + oracle only streams: mapped members (Map / PrefixMap / TraitMap) in compounds next to members that "
+        "accept unhashable values (List, Dict, Set, Array, Instance(list/dict/object), Trait(list), Tuple()) assigned "
+        "unhashable / hashable-non-key / key values through every route (any non-TraitError exception must leave the "
+        "object unchanged, an accepted value has shadow = mapped value or itself); Range(low='lo', high='hi') and "
+        "Enum(values='vals') whose governing attribute is replaced (Enum collections also mutated in place) between "
+        "assignments and reads: every value READ lies in the domain the governing attributes declare at that moment, "
+        "explicit and implicit defaults included; adaptable objects and adapters come in truthy / __bool__ False / "
+        "__len__ 0 flavours")
 TRUSTED = ["the reference predicates ref_domain / conv_ok of harness/props/c01.py (written from the documentation)",
            "calling a type object on a value, re.match, numpy.asarray of a list/tuple and numpy.can_cast are parameters "
            "of the model; their outcome is computed with the plain builtins / re / numpy and sent on the case line",
            "Py.Val (validated by C03's kinds p, q)"]
-ASSUMPTIONS = ["default values are not judged (C10): only assigned attributes are compared and checked",
+ASSUMPTIONS = ["default values are not judged (C10): only assigned attributes are compared and checked (exception: the "
+               "readable default of a dynamic Range / Enum must lie in the current domain)",
+               "a dynamic Range / Enum whose current domain is empty (low > high, empty collection) has no readable value "
+               "to judge; exceptions raised by the == of the assigned value itself are not foreign exceptions",
                "no trait-change handlers are attached (C02); post_setattr is modelled for Map / PrefixMap only",
                "special methods do not raise TraitError themselves",
                "a compound (Either / TraitCompound) with a Map member or an Instance(adapt='default') member is outside "
@@ -60,6 +71,14 @@ def corpus():
         "#r|-|dyn dyn 1 0|lo (i 0);hi (i 2);set (f 2);set (f 6);set (i 0);set (i 1)",
         "#r|-|dyn dyn 0 1|lo (i -4);hi (i -1);set (f -6);set (i -2);hi (f 0);set (f -2)",
         "#r|-|dyn (f 8) 1 1|lo (f 0);set (f 0);set (f 8);set (i 1);lo (f 4);set (f 2)",
+        # the governing trait changes between an assignment and a read
+        "#r|-|dyn dyn 0 0|lo (i 0);hi (i 5);get;set (i 4);get;hi (i 2);get;lo (i 3);get;hi (i 9);get",
+        "#e|-|list (l (s a) (s b) (s c)) -|get;set (s c);get;vals (l (s a) (s b));get;set (s b);rem0;get;pop;get;app (s b);get",
+        "#e|-|any (t (i 1) (i 2) (i 3)) (i 2)|get;new (i 3);vals (t (i 1));get;vals (st (i 3) (i 4));get",
+        "#e|-|any (l (i 1) (i 2)) (i 5)|get;set (i 2);get;clr;get",
+        # mapped member next to a member taking unhashable values
+        "#" + make_case("(Either 0 (Map ((s yes) (i 1)) ((s no) (i 0))) (List Int))",
+                        [("set", "(s yes)"), ("set", "(l (i 1) (i 2))"), ("tset", "(s no)"), ("new", "(l)"), ("setq", "(t (i 1))")]),
     ]
 
 
@@ -111,14 +130,77 @@ def generate(rng, tier):
         tt = "(Either 0 %s)" % " ".join(alts) if rng.random() < 0.7 else "(CompoundH %s)" % " ".join(alts)
         vals = [rng.choice(["(s yes)", "(s no)", "(s y)", "(ss yes)", rng.choice(L), rng.choice(L)]) for _ in range(rng.randint(2, 5))]
         yield "#" + make_case(tt, [(rng.choice(kinds), v) for v in vals])
+    # mapped members next to members that accept UNHASHABLE values (lists, dicts, sets, arrays, tuples holding a list):
+    # unhashable and hashable-non-key values through every route; any exception other than TraitError must leave the
+    # object as it was, an accepted value has its shadow
+    for _ in range(ncomp // 6):
+        yield "#" + mapped_unhashable_case(rng, mapped_members, kinds)
     # Range with trait-named bounds: property-backed, outside the Lean model (implementation + oracle only)
     for _ in range(ncomp // 3):
         yield dynamic_case(rng)
+    # Enum with a trait-named collection: the collection is replaced / mutated in place between assignments and reads
+    for _ in range(ncomp // 4):
+        yield dynamic_enum_case(rng)
     for _ in range(ncomp):
         tt = V.random_trait(rng, rng.randint(1, depth), mapped=False)
         ops = [(rng.choice(kinds), V.random_value_for(rng, tt, L)) for _ in range(rng.randint(2, 6))]
         side = [rng.choice(SIDE_OPS) if rng.random() < 0.3 else None for _ in ops]
         yield make_case(tt, ops, side)
+
+
+UNHASHABLE_MEMBERS = ["(List Int)", "(List Any)", "(Dict)", "(Set)", "(Instance list 0 0 N)", "(Instance object 0 0 N)",
+                      "(Instance dict 1 0 N)", "(Array N N 0)", "(Array 4 N 0)", "(CoerceH list)", "(CastH list)", "(CoerceH dict)",
+                      "TupleAny", "(FunctionH 0)", "(InstanceH list 0)"]
+UNHASHABLE_VALUES = ["(l (i 1) (i 2))", "(l)", "(l (i 4))", "(l (s a))", "(dict 0)", "(dict 1)", "(st (i 1) (i 2))", "(st)", "(nd 2 (2))",
+                     "(nd 4 (3))", "(arr 0)", "(t (l (i 1)) (i 2))", "(badeq 0)", "(l (l (i 1)))"]
+HASHABLE_NON_KEYS = ["(t (i 1) (i 2))", "(t)", "(i 3)", "(f 6)", "N", "(s maybe)", "(s)", "(inst 2 (2) () 3)", "(b 1)", "(y a)"]
+MAP_KEYS = ["(s yes)", "(s no)", "(ss yes)", "(s y)", "(s n)"]
+
+
+def mapped_unhashable_case(rng, mapped_members, kinds):
+    others = [rng.choice(UNHASHABLE_MEMBERS) for _ in range(rng.randint(1, 2))]
+    if rng.random() < 0.3:
+        others.append(V.random_trait(rng, 0, mapped=False))
+    others = [o for o in others if o != "Any" and "Instance (u 2) 1 2" not in o]
+    alts = others + [rng.choice(mapped_members)]
+    if rng.random() < 0.15:
+        alts.append(rng.choice(mapped_members))
+    rng.shuffle(alts)
+    r = rng.random()
+    if r < 0.6:
+        tt = "(Either %d %s)" % (1 if rng.random() < 0.2 else 0, " ".join(alts))
+    elif r < 0.85:
+        tt = "(CompoundH %s)" % " ".join(alts)
+    else:       # the mapped member one level down
+        tt = "(Either 0 %s (Either 0 %s))" % (alts[0], " ".join(alts[1:]))
+    vals = []
+    for _ in range(rng.randint(3, 7)):
+        r = rng.random()
+        vals.append(rng.choice(MAP_KEYS) if r < 0.35 else rng.choice(UNHASHABLE_VALUES) if r < 0.75 else rng.choice(HASHABLE_NON_KEYS))
+    return make_case(tt, [(rng.choice(kinds), v) for v in vals])
+
+
+def flat_members(t):
+    if isinstance(t, list) and t[0] in ("Either", "CompoundH"):
+        return [x for m in (t[2:] if t[0] == "Either" else t[1:]) for x in flat_members(m)]
+    return [t]
+
+
+def compound_shape(t, value, ctx, obj):
+    """`Either(Map+List)`: head of the compound, the kinds of its mapped members, the kind of the member that alone
+    accepts the value."""
+    ms = flat_members(t)
+    mapped = sorted(set(m[0] for m in ms if isinstance(m, list) and m[0] in ("Map", "MapH", "PrefixMap")))
+    acc = "none"
+    for m in ms:
+        if m == "NoneT" or (isinstance(m, list) and m[0] in ("Map", "MapH", "PrefixMap")):
+            continue
+        ct = V.as_ctrait(V.build_trait(m, ctx))
+        out, _, _ = V.show_outcome(lambda: ct.validate(obj, "x", value), ctx)
+        if out.startswith("ok "):
+            acc = m if isinstance(m, str) else m[0]
+            break
+    return "%s(%s+%s)" % (t[0], "/".join(mapped), acc)
 
 
 def _hit(sig, what, **kw):
@@ -212,7 +294,7 @@ def ref_domain(t, w, ctx):
         c = V.build_type(t[1], ctx)
         mode = int(t[3])
         return ((t[2] == "1" and w is None) or (w is not None and isinstance(w, c))
-                or (mode >= 1 and c is ctx.classes[2] and type(w) is ctx.classes[9])
+                or (mode >= 1 and c is ctx.classes[2] and isinstance(w, ctx.classes[9]))
                 or (mode == 2 and w is None))
     if h == "InstanceH":
         return (t[2] == "1" and w is None) or (w is not None and isinstance(w, V.build_type(t[1], ctx)))
@@ -267,6 +349,12 @@ def ref_domain(t, w, ctx):
         return type(w) is V.build_type(t[1], ctx)
     if h == "FunctionH":
         return True
+    if h == "List":
+        return isinstance(w, list) and all(ref_domain(t[1], x, ctx) for x in w)
+    if h == "Dict":
+        return isinstance(w, dict)
+    if h == "Set":
+        return isinstance(w, set)
     raise AssertionError(t)
 
 
@@ -385,6 +473,12 @@ def conv_ok(t, v, w, ctx):
         return w is v if type(v) is T else one_of(attempt(lambda: T(v)))
     if h == "FunctionH":
         return one_of(attempt(lambda: V.FUNCS[int(t[1])](None, "x", v)))
+    if h == "List":
+        return isinstance(v, list) and isinstance(w, list) and len(v) == len(w) and all(conv_ok(t[1], x, y, ctx) for x, y in zip(v, w))
+    if h == "Dict":
+        return isinstance(v, dict) and isinstance(w, dict) and dict(w) == v
+    if h == "Set":
+        return isinstance(v, set) and isinstance(w, set) and set(w) == v
     raise AssertionError(t)
 
 
@@ -548,12 +642,20 @@ def dynamic_case(rng):
         ops.append("lo " + rng.choice(DYN_NUMS[:6]))
     if high == "dyn":
         ops.append("hi " + rng.choice(DYN_NUMS[:6]))
+    if rng.random() < 0.2:
+        ops.append("get")                                    # the default, before anything was assigned
     for _ in range(rng.randint(3, 9)):
         r = rng.random()
         if r < 0.15 and low == "dyn":
             ops.append("lo " + rng.choice(DYN_NUMS))
+            if rng.random() < 0.7:
+                ops.append("get")                            # the governing trait changed: read
         elif r < 0.3 and high == "dyn":
             ops.append("hi " + rng.choice(DYN_NUMS))
+            if rng.random() < 0.7:
+                ops.append("get")
+        elif r < 0.4:
+            ops.append("get")
         else:
             ops.append("%s %s" % (rng.choice(["set", "set", "tset", "setq", "qset"]), rng.choice(DYN_VALUES)))
     return "#r|-|%s %s %d %d|%s" % (low, high, rng.randint(0, 1), rng.randint(0, 1), ";".join(ops))
@@ -579,7 +681,56 @@ def run_r(cfg, opstr):
     hits, outs, tags = [], [], {"dynrange"}
     where0 = "Range(low=%s, high=%s, exclude_low=%s, exclude_high=%s)" % (
         V.show_sexp(low_t), V.show_sexp(high_t), exlo, exhi)
+    assigned = False
+
+    def range_type(lo, hi):
+        T_ = type(lo) if lo is not None else type(hi)
+        if low_t != "dyn" and low_t != "N" and high_t == "dyn":
+            T_ = type(V.build_value(low_t, ctx))       # a static bound fixes the type
+        if high_t != "dyn" and high_t != "N" and low_t == "dyn":
+            T_ = type(V.build_value(high_t, ctx))
+        return T_
     for op in [o for o in opstr.split(";") if o.strip()]:
+        if op.strip() == "get":
+            # ---- oracle: every readable value lies in the CURRENT declared range (bounds read from the governing
+            # attributes, not from the handler), whatever was assigned before the bounds moved
+            lo = obj.lo if low_t == "dyn" else V.build_value(low_t, ctx)
+            hi = obj.hi if high_t == "dyn" else V.build_value(high_t, ctx)
+            where = "%s with lo=%r hi=%r, read r%s" % (where0, lo, hi, " (after an assignment)" if assigned else " (nothing assigned)")
+            tags.add("dynrange:read-" + ("assigned" if assigned else "default"))
+            try:
+                readable = obj.r
+            except Exception as e:
+                en = V.exc_name(e)
+                outs.append("read raises " + en)
+                cached = obj.__dict__.get("_traits_cache_r", "unset")
+                if en == "TypeError" and cached is None and not assigned:
+                    # the default is the value of the low (else high) bound; a bound attribute holding None makes it
+                    # None, which _get caches and then compares with the other bound
+                    hits.append(_hit("dynamic-range-default-from-none-bound-unreadable", where + ": raises TypeError (the cached "
+                                     "default is None, taken from a bound attribute that held None at the first read)"))
+                elif isinstance(cached, float) and ((en == "OverflowError" and cached in (float("inf"), float("-inf")))
+                                                    or (en == "ValueError" and cached != cached)):
+                    tags.add("dynrange:read-overflowing-conversion")   # int(inf) / int(nan) after the bounds' type changed
+                else:
+                    hits.append(_hit("readable-raises:RangeDyn:%s" % en, where))
+                continue
+            outs.append("read " + V.show_value(readable, ctx))
+            if lo is None and hi is None:
+                continue
+            if lo is not None and hi is not None and (lo > hi or (lo == hi and (exlo or exhi))):
+                tags.add("dynrange:read-empty-domain")     # no value can satisfy the statement
+                continue
+            if type(readable) is range_type(lo, hi) and in_range(lo, hi, exlo, exhi, readable):
+                continue
+            if (exlo and lo is not None and readable == lo) or (exhi and hi is not None and readable == hi):
+                hits.append(_hit("dynamic-range-read-gives-excluded-bound", where + ": reads %s, the EXCLUDED bound" % V.show_value(readable, ctx)))
+            elif isinstance(readable, float) and readable != readable:
+                hits.append(_hit("dynamic-range-nan-survives-new-bounds", where + ": reads nan (stored while both bounds were None)"))
+            else:
+                hits.append(_hit("dynamic-range-stale-read" if assigned else "dynamic-range-default-out-of-domain",
+                                 where + ": reads %s, outside the current range" % V.show_value(readable, ctx)))
+            continue
         k, vs = op.strip().split(" ", 1)
         value = V.build_value(V.parse_sexp(vs), ctx)
         if k in ("lo", "hi"):
@@ -618,6 +769,7 @@ def run_r(cfg, opstr):
                 hits.append(_hit("foreign-exception:RangeDyn:%s" % en, where))
             continue
         tags.add("dynrange:accepted")
+        assigned = True
         stored = obj.__dict__.get("_traits_cache_r", None)
         try:
             readable = obj.r
@@ -632,11 +784,7 @@ def run_r(cfg, opstr):
         outs.append("ok " + V.show_value(stored, ctx))
         if lo is None and hi is None:
             continue                                   # unbounded: any int or float as it is
-        T_ = type(lo) if lo is not None else type(hi)
-        if low_t != "dyn" and low_t != "N" and high_t == "dyn":
-            T_ = type(V.build_value(low_t, ctx))       # a static bound fixes the type
-        if high_t != "dyn" and high_t != "N" and low_t == "dyn":
-            T_ = type(V.build_value(high_t, ctx))
+        T_ = range_type(lo, hi)
         for label, w in (("stored", stored), ("readable", readable)):
             ok_type = type(w) is T_
             ok_conv = ok_type and same(w, attempt(lambda: T_(value))[0] if attempt(lambda: T_(value)) else None, ctx)
@@ -648,6 +796,182 @@ def run_r(cfg, opstr):
             if not ok_conv:
                 hits.append(_hit("unexpected-conversion:RangeDyn", where + ": %s %s" % (label, V.show_value(w, ctx))))
                 break
+    return " ; ".join(outs), hits, tags
+
+
+# ------------------------------------------------------------------ Enum with a trait-named (dynamic) collection
+
+ENUM_MEMBERS = ["(i 1)", "(i 2)", "(i 3)", "(i 4)", "(s a)", "(s b)", "(s c)", "N", "(f 4)", "(f 6)", "(t (i 1) (i 2))", "(b 1)", "(s)", "(i 0)"]
+ENUM_VALUES = ENUM_MEMBERS + ["(ss a)", "(is 2)", "(f 8)", "(l (i 1))", "(nd 2 (2))", "(badeq 0)", "(obj 0)", "(t (i 1) (f 8))", "(y a)"]
+
+
+def enum_collection(rng, kind=None):
+    kind = kind or rng.choice(["l", "l", "l", "t", "t", "st"])
+    ms = rng.sample(ENUM_MEMBERS, rng.randint(0 if rng.random() < 0.1 else 1, 4))
+    return "(%s)" % " ".join([kind] + ms), ms
+
+
+def dynamic_enum_case(rng):
+    """`#e|-|governor-kind initial-collection default|ops`: the governor `vals` is an Any or a List trait holding the
+    collection; ops replace it (`vals C`), mutate it in place (`app v`, `ins v`, `rem0`, `pop`, `clr`), assign the
+    enumeration through the routes and read it (`get`)."""
+    gov = rng.choice(["any", "any", "list"])
+    init, ms = enum_collection(rng, "l" if gov == "list" else None)
+    r = rng.random()
+    default = "-" if r < 0.5 else (rng.choice(ms) if ms and r < 0.75 else rng.choice(ENUM_VALUES[:16]))
+    ops = []
+    cur = list(ms)
+    if rng.random() < 0.3:
+        ops.append("get")
+    for _ in range(rng.randint(3, 9)):
+        r = rng.random()
+        if r < 0.4:
+            v = rng.choice(cur) if cur and rng.random() < 0.75 else rng.choice(ENUM_VALUES)
+            ops.append("%s %s" % (rng.choice(["set", "set", "tset", "setq", "qset", "new"]), v))
+            if ops[-1].startswith("new"):
+                cur = list(ms)
+            if rng.random() < 0.3:
+                ops.append("get")
+        elif r < 0.55:
+            c, cur = enum_collection(rng, "l" if gov == "list" else None)
+            ops.append("vals " + c)
+            if rng.random() < 0.8:
+                ops.append("get")
+        elif r < 0.75:
+            m = rng.choice(["app " + rng.choice(ENUM_MEMBERS), "ins " + rng.choice(ENUM_MEMBERS), "rem0", "pop", "clr"])
+            ops.append(m)
+            if rng.random() < 0.8:
+                ops.append("get")
+        else:
+            ops.append("get")
+    return "#e|-|%s %s %s|%s" % (gov, init, default, ";".join(ops))
+
+
+def run_e(cfg, opstr):
+    """Enum(values='vals'): every accepted value is a member of the collection `vals` holds at that moment, and every
+    value READ is a member of the collection `vals` holds NOW - also after the collection was replaced or mutated in
+    place since the last assignment, and for the default (explicit or not) before any assignment."""
+    import traits.api as T
+    import warnings
+    ctx = V.Ctx()
+    toks = V.parse_sexps(cfg)
+    gov, init_t, default_t = toks[0], toks[1], toks[2]
+    init = V.build_value(init_t, ctx)
+    ns = {"vals": T.List(T.Any, init) if gov == "list" else T.Any(init), "__repr__": lambda self: "<E>"}
+    try:
+        ns["e"] = T.Enum(values="vals") if default_t == "-" else T.Enum(V.build_value(default_t, ctx), values="vals")
+    except Exception as e:
+        return "ctor " + V.exc_name(e), [], ["dynenum:ctor-error"]
+    E = type("E", (T.HasTraits,), ns)
+    obj = E()
+    hits, outs = [], []
+    tags = {"dynenum", "dynenum:governor-" + gov, "dynenum:default-" + ("implicit" if default_t == "-" else "explicit")}
+    assigned = None                     # [value] once an assignment was accepted
+    since = "nothing assigned"
+    where0 = "Enum(%svalues='vals'), vals a%s" % ("" if default_t == "-" else V.show_sexp(default_t) + ", ",
+                                                 " List trait" if gov == "list" else "n Any trait")
+
+    def members():
+        return list(obj.vals)
+
+    def is_member(x, ms):
+        return any(safe_eq(m, x) for m in ms)
+
+    def show_ms(ms):
+        return "[%s]" % " ".join(V.show_value(m, ctx) for m in ms)
+    for op in [o for o in opstr.split(";") if o.strip()]:
+        k, _, vs = op.strip().partition(" ")
+        if k == "get":
+            ms = members()
+            where = "%s = %s (%s), read e" % (where0, show_ms(ms), since)
+            try:
+                with warnings.catch_warnings():
+                    warnings.simplefilter("ignore")
+                    readable = obj.e
+            except Exception as e:
+                outs.append("read raises " + V.exc_name(e))
+                hits.append(_hit("readable-raises:EnumDyn:%s" % V.exc_name(e), where))
+                continue
+            outs.append("read " + V.show_value(readable, ctx))
+            tags.add("dynenum:read-" + since.split(" ")[0].rstrip(","))
+            if not ms:
+                tags.add("dynenum:read-empty-domain")       # no value can satisfy the statement
+                continue
+            if not is_member(readable, ms):
+                sig = "dynamic-enum-default-not-member" if assigned is None else "dynamic-enum-stale-read"
+                hits.append(_hit(sig, where + ": reads %s, which is not a member of the current collection" % V.show_value(readable, ctx)))
+            elif assigned is not None and is_member(assigned[0], ms) and not safe_eq(readable, assigned[0]):
+                hits.append(_hit("dynamic-enum-read-is-not-assigned-value", where + ": reads %s although the assigned value %s "
+                                 "is a member" % (V.show_value(readable, ctx), V.show_value(assigned[0], ctx))))
+            continue
+        if k in ("vals", "app", "ins", "rem0", "pop", "clr"):
+            try:
+                if k == "vals":
+                    obj.vals = V.build_value(V.parse_sexp(vs), ctx)
+                else:
+                    c = obj.vals
+                    if not isinstance(c, list):
+                        outs.append(k + " skipped")
+                        continue
+                    if k == "app":
+                        c.append(V.build_value(V.parse_sexp(vs), ctx))
+                    elif k == "ins":
+                        c.insert(0, V.build_value(V.parse_sexp(vs), ctx))
+                    elif k == "rem0":
+                        del c[:1]
+                    elif k == "pop":
+                        del c[-1:]
+                    else:
+                        del c[:]
+            except Exception as e:
+                outs.append("%s raises %s" % (k, V.exc_name(e)))
+                continue
+            outs.append(op.strip())
+            tags.add("dynenum:governor-" + ("replaced" if k == "vals" else "mutated"))
+            if assigned is not None:
+                since = "assigned, then the collection was " + ("replaced" if k == "vals" else "mutated in place")
+            continue
+        value = V.build_value(V.parse_sexp(vs), ctx)
+        target = obj
+        ms = members() if k != "new" else list(init)     # (reading `vals` may write its default into the dict: do it first)
+        before = dict(obj.__dict__)
+        where = "%s = %s, %s e:=%s" % (where0, show_ms(ms), k, vs)
+        exc = None
+        try:
+            with warnings.catch_warnings():
+                warnings.simplefilter("ignore")
+                if k == "set":
+                    obj.e = value
+                elif k == "tset":
+                    obj.trait_set(e=value)
+                elif k == "qset":
+                    obj.trait_set(trait_change_notify=False, e=value)
+                elif k == "setq":
+                    obj.trait_setq(e=value)
+                else:
+                    target = E(e=value)
+        except BaseException as e:  # noqa: B902
+            exc = e
+        if exc is not None:
+            en = V.exc_name(exc)
+            outs.append(en)
+            after = obj.__dict__
+            if set(after) != set(before) or any(after[x] is not before[x] for x in before):
+                hits.append(_hit("failed-assignment-had-effect:EnumDyn:%s" % en, where))
+            if en == "ValueError" and ms and ("badeq" in vs or "(nd " in vs):
+                tags.add("dynenum:value-eq-raises")        # the value's own == raised it (safe_contains catches TypeError only)
+            elif en != "TraitError":
+                hits.append(_hit("foreign-exception:EnumDyn:%s" % en, where))
+            elif is_member(value, ms) and hashable(value):
+                hits.append(_hit("dynamic-enum-rejects-member", where))
+            continue
+        obj = target
+        outs.append("ok")
+        tags.add("dynenum:accepted")
+        assigned = [value]
+        since = "assigned"
+        if not is_member(value, ms):
+            hits.append(_hit("dynamic-enum-accepts-non-member", where))
     return " ; ".join(outs), hits, tags
 
 
@@ -663,6 +987,8 @@ def run_impl(case):
     kind, env, a, b = case.lstrip("#").split("|")
     if kind == "r":
         return run_r(a, b)
+    if kind == "e":
+        return run_e(a, b)
     assert kind == "a"
     mode = V.falsy_mode(a + "|" + b)
     with V.falsy(mode):
@@ -716,16 +1042,27 @@ def run_a(env, a, b):
             tags.add("res:" + en)
             # ---- oracle: a failed assignment has no effect at all
             after = obj.__dict__
-            if isinstance(t, list) and t[0] in ("Either", "CompoundH") and has_mapped_member(t) and en in ("KeyError", "TypeError") \
-                    and en not in protocol_exceptions(vterm, set()):
-                # (F46) the exception of an unguarded self.map[value] in Map/PrefixMap.post_setattr; the dict
-                # entry (or the default) is already written, so the rest of this history is not judged for shadows
-                hits.append(_hit("mapped-compound-post-setattr-raises", where + ": raised %s after the value (or the default) "
-                                 "was stored: Map.post_setattr looks the value up without guarding" % en))
+            changed = set(after) != set(before) or any(after[x] is not before[x] for x in before)
+            if isinstance(t, list) and t[0] in ("Either", "CompoundH") and has_mapped_member(t) and en != "TraitError" \
+                    and en not in protocol_exceptions(vterm, set()) and (changed or en == "KeyError"):
+                # an exception other than TraitError out of the post_setattr chain of a mapped compound: the dict entry
+                # (or the default) is already written and the shadow is stale, so the rest of this history is not
+                # judged for shadows.  KeyError: (F46) the unguarded self.map[value] of Map/PrefixMap.post_setattr
+                tags.add("mapped-compound:foreign-exception")
+                if en == "KeyError":
+                    hits.append(_hit("mapped-compound-post-setattr-raises", where + ": raised %s after the value (or the default) "
+                                     "was stored: Map.post_setattr looks the value up without guarding" % en))
+                else:
+                    hits.append(_hit("foreign-exception-after-store:%s:%s" % (en, compound_shape(t, value, ctx, obj)),
+                                     where + ": raised %s (not a TraitError) AFTER the object changed: %s; the shadow %s_ is %s" % (
+                                         en, ", ".join("%s %s -> %s" % (x, V.show_value(before[x], ctx) if x in before else "unset",
+                                                                        V.show_value(after[x], ctx))
+                                                       for x in sorted(after) if x not in before or after[x] is not before[x]),
+                                         name, V.show_value(after[name + "_"], ctx) if (name + "_") in after else "unset")))
                 outs.append("exc " + en)
                 shadow_spoilt = True
                 continue
-            if set(after) != set(before) or any(after[x] is not before[x] for x in before):
+            if changed:
                 hits.append(_hit("failed-assignment-had-effect:%s:%s" % (hd, en), where + ": raised %s but the object changed" % en))
             if en == "TraitError":
                 if ("'%s'" % name) not in str(exc):
@@ -746,6 +1083,8 @@ def run_a(env, a, b):
             obj = target
             before = {}
         tags.add("res:ok")
+        if isinstance(t, list) and t[0] in ("Either", "CompoundH") and has_mapped_member(t):
+            tags.add("mapped-compound:stored-" + ("hashable" if hashable(value) else "unhashable"))
         d = obj.__dict__
         stored = d.get(name, None) if name in d else None
         if name not in d:
